@@ -21,9 +21,11 @@ import (
 	"os"
 	"os/exec"
 	"regexp"
+	"runtime"
 	"sort"
 	"strconv"
 	"strings"
+	"sync"
 	"testing"
 	"testing/synctest"
 	"time"
@@ -689,13 +691,100 @@ func diffFields(got, want obs) string {
 // the nil serviceCancel and the code did not panic (the code implements the guarded variant).
 var guardedNilCalls int
 
+// Progress of a child: one fixed-size line rewritten in place before every behaviour.
+//
+//	next cases nontrivial guarded total done
 type childState struct {
-	Guarded    int  `json:"guarded"`
-	Next       int  `json:"next"` // index of the behaviour being replayed (or about to be)
-	Cases      int  `json:"cases"`
-	Nontrivial int  `json:"nontrivial"`
-	Total      int  `json:"total"`
-	Done       bool `json:"done"`
+	Next, Cases, Nontrivial, Guarded, Total, Done int
+}
+
+const stateLen = 96
+
+func (st childState) write(f *os.File) {
+	line := fmt.Sprintf("%d %d %d %d %d %d", st.Next, st.Cases, st.Nontrivial, st.Guarded, st.Total, st.Done)
+	b := []byte(line + strings.Repeat(" ", stateLen-1-len(line)) + "\n")
+	_, _ = f.WriteAt(b, 0)
+}
+
+func readState(path string) (childState, error) {
+	var st childState
+	b, err := os.ReadFile(path)
+	if err != nil {
+		return st, err
+	}
+	_, err = fmt.Sscan(string(b), &st.Next, &st.Cases, &st.Nontrivial, &st.Guarded, &st.Total, &st.Done)
+	return st, err
+}
+
+type shardResult struct {
+	cases, nontrivial, guarded int
+	mis                        []abs.Mismatch
+	fatal                      string
+	crashLimit                 bool
+}
+
+// runShard runs the children of one shard (behaviours with index = shard mod nshards) to completion.
+func runShard(childTest string, shard, nshards int, dir string) (out shardResult) {
+	statePath := fmt.Sprintf("%s/state%d", dir, shard)
+	misPath := fmt.Sprintf("%s/mis%d.ndjson", dir, shard)
+	from, crashes := 0, 0
+	for {
+		cmd := exec.Command(os.Args[0], "-test.run", "^"+childTest+"$", "-test.count=1", "-test.timeout=6000s")
+		cmd.Env = append(os.Environ(), "VERIF_CHILD_FROM="+strconv.Itoa(from), "VERIF_CHILD_STATE="+statePath, "VERIF_CHILD_MIS="+misPath,
+			fmt.Sprintf("VERIF_CHILD_SHARD=%d/%d", shard, nshards))
+		var buf bytes.Buffer
+		cmd.Stdout, cmd.Stderr = &buf, &buf
+		runErr := cmd.Run()
+		st, err := readState(statePath)
+		if err != nil {
+			out.fatal = "child wrote no state: " + tail(buf.String(), 1500)
+			return
+		}
+		if b, err := os.ReadFile(misPath); err == nil {
+			for _, ln := range bytes.Split(b, []byte("\n")) {
+				var m abs.Mismatch
+				if len(ln) > 0 && json.Unmarshal(ln, &m) == nil {
+					out.mis = append(out.mis, m)
+				}
+			}
+			_ = os.Remove(misPath)
+		}
+		out.cases += st.Cases
+		out.nontrivial += st.Nontrivial
+		out.guarded += st.Guarded
+		if st.Done == 1 && runErr == nil {
+			return
+		}
+		if st.Done == 1 {
+			out.fatal = "child failed after finishing: " + tail(buf.String(), 1500)
+			return
+		}
+		// the child died while replaying behaviour st.Next
+		crashes++
+		msg := crashLine(buf.String())
+		if msg == "" {
+			out.fatal = "child died without a panic message: " + tail(buf.String(), 1500)
+			return
+		}
+		desc := exec.Command(os.Args[0], "-test.run", "^"+childTest+"$", "-test.count=1")
+		desc.Env = append(os.Environ(), "VERIF_CHILD_DESCRIBE="+strconv.Itoa(st.Next), "VERIF_CHILD_STATE="+statePath+".desc")
+		_ = desc.Run()
+		var cur any
+		if b, err := os.ReadFile(statePath + ".desc"); err == nil {
+			_ = json.Unmarshal(b, &cur)
+		}
+		out.cases++
+		out.mis = append(out.mis, abs.Mismatch{Sig: "crash:" + msg, Case: cur, Got: tail(buf.String(), 1200), Want: "no panic",
+			Note: "the process running the real code died while replaying this behaviour"})
+		if crashes >= 12 {
+			out.crashLimit = true
+			return
+		}
+		from = st.Next + 1
+		if from >= st.Total {
+			return
+		}
+	}
 }
 
 func runChildLoop(t *testing.T, childTest string, res *abs.Result) {
@@ -705,63 +794,42 @@ func runChildLoop(t *testing.T, childTest string, res *abs.Result) {
 		return
 	}
 	defer os.RemoveAll(dir)
-	statePath, misPath := dir+"/state.json", dir+"/mis.ndjson"
-	from, crashes, guardedTotal := 0, 0, 0
-	for {
-		cmd := exec.Command(os.Args[0], "-test.run", "^"+childTest+"$", "-test.count=1", "-test.timeout=3000s")
-		cmd.Env = append(os.Environ(), "VERIF_CHILD_FROM="+strconv.Itoa(from), "VERIF_CHILD_STATE="+statePath, "VERIF_CHILD_MIS="+misPath)
-		var out bytes.Buffer
-		cmd.Stdout, cmd.Stderr = &out, &out
-		runErr := cmd.Run()
-		var st childState
-		if b, err := os.ReadFile(statePath); err == nil {
-			_ = json.Unmarshal(b, &st)
-		} else {
-			res.Fatal = "child wrote no state: " + tail(out.String(), 1500)
-			return
+	nshards := abs.EnvInt("VERIF_C17_SHARDS", 0)
+	if nshards <= 0 {
+		nshards = runtime.NumCPU() / 2
+		if nshards > 8 {
+			nshards = 8
 		}
-		if b, err := os.ReadFile(misPath); err == nil {
-			for _, ln := range bytes.Split(b, []byte("\n")) {
-				var m abs.Mismatch
-				if len(ln) > 0 && json.Unmarshal(ln, &m) == nil {
-					res.Mismatch(m)
-				}
-			}
-			_ = os.Remove(misPath)
-		}
-		res.Cases += st.Cases
-		res.Nontrivial += st.Nontrivial
-		guardedTotal += st.Guarded
-		res.AddExtra("guarded_nil_calls", guardedTotal)
-		if st.Done && runErr == nil {
-			return
-		}
-		if st.Done {
-			res.Fatal = "child failed after finishing: " + tail(out.String(), 1500)
-			return
-		}
-		// the child died while replaying behaviour st.Next
-		crashes++
-		msg := crashLine(out.String())
-		if msg == "" {
-			res.Fatal = "child died without a panic message: " + tail(out.String(), 1500)
-			return
-		}
-		b, _ := os.ReadFile(dir + "/current.json")
-		var cur any
-		_ = json.Unmarshal(b, &cur)
-		res.Cases++
-		res.Mismatch(abs.Mismatch{Sig: "crash:" + msg, Case: cur, Got: tail(out.String(), 1200), Want: "no panic",
-			Note: "the process running the real code died while replaying this behaviour"})
-		if crashes >= 25 {
-			res.AddExtra("crash_limit_reached", true)
-			return
-		}
-		from = st.Next + 1
-		if from >= st.Total {
-			return
+		if nshards < 1 {
+			nshards = 1
 		}
 	}
+	outs := make([]shardResult, nshards)
+	var wg sync.WaitGroup
+	for k := 0; k < nshards; k++ {
+		wg.Add(1)
+		go func(k int) {
+			defer wg.Done()
+			outs[k] = runShard(childTest, k, nshards, dir)
+		}(k)
+	}
+	wg.Wait()
+	guarded := 0
+	for _, o := range outs { // merged in shard order: deterministic
+		res.Cases += o.cases
+		res.Nontrivial += o.nontrivial
+		guarded += o.guarded
+		for _, m := range o.mis {
+			res.Mismatch(m)
+		}
+		if o.fatal != "" && res.Fatal == "" {
+			res.Fatal = o.fatal
+		}
+		if o.crashLimit {
+			res.AddExtra("crash_limit_reached", true)
+		}
+	}
+	res.AddExtra("guarded_nil_calls", guarded)
 }
 
 func tail(s string, n int) string {
@@ -793,19 +861,33 @@ func crashLine(out string) string {
 	return ""
 }
 
-func childRun(t *testing.T, nleaves int, each func(i int) (cur any, mis []abs.Mismatch, nontrivial bool)) {
-	from := abs.EnvInt("VERIF_CHILD_FROM", 0)
-	statePath, misPath := os.Getenv("VERIF_CHILD_STATE"), os.Getenv("VERIF_CHILD_MIS")
-	st := childState{Next: from, Total: nleaves}
-	writeState := func() {
-		b, _ := json.Marshal(st)
+// childRun replays the behaviours of this child's shard, starting at index VERIF_CHILD_FROM.
+func childRun(t *testing.T, n int, describe func(i int) any, each func(i int) (mis []abs.Mismatch, nontrivial bool)) {
+	statePath := os.Getenv("VERIF_CHILD_STATE")
+	if d := os.Getenv("VERIF_CHILD_DESCRIBE"); d != "" {
+		i, _ := strconv.Atoi(d)
+		b, _ := json.Marshal(describe(i))
 		_ = os.WriteFile(statePath, b, 0o644)
+		return
 	}
+	shard, nshards := 0, 1
+	_, _ = fmt.Sscanf(os.Getenv("VERIF_CHILD_SHARD"), "%d/%d", &shard, &nshards)
+	from := abs.EnvInt("VERIF_CHILD_FROM", 0)
+	sf, err := os.OpenFile(statePath, os.O_CREATE|os.O_RDWR|os.O_TRUNC, 0o644)
+	if err != nil {
+		t.Fatal(err)
+	}
+	defer sf.Close()
+	st := childState{Next: from, Total: n}
+	st.write(sf)
 	var misf *os.File
-	for i := from; i < nleaves; i++ {
+	for i := from; i < n; i++ {
+		if i%nshards != shard {
+			continue
+		}
 		st.Next = i
-		writeState()
-		_, mis, nt := each(i)
+		st.write(sf)
+		mis, nt := each(i)
 		st.Cases++
 		st.Guarded = guardedNilCalls
 		if nt {
@@ -813,19 +895,18 @@ func childRun(t *testing.T, nleaves int, each func(i int) (cur any, mis []abs.Mi
 		}
 		for _, m := range mis {
 			if misf == nil {
-				misf, _ = os.OpenFile(misPath, os.O_CREATE|os.O_APPEND|os.O_WRONLY, 0o644)
+				misf, _ = os.OpenFile(os.Getenv("VERIF_CHILD_MIS"), os.O_CREATE|os.O_APPEND|os.O_WRONLY, 0o644)
 			}
 			b, _ := json.Marshal(m)
-			misf.Write(append(b, '\n'))
+			_, _ = misf.Write(append(b, '\n'))
 		}
 	}
 	if misf != nil {
 		misf.Close()
 	}
-	st.Done = true
-	st.Guarded = guardedNilCalls
-	st.Next = nleaves
-	writeState()
+	st.Done = 1
+	st.Next = n
+	st.write(sf)
 }
 
 // TestReplay: $VERIF_JOBS names a JSON manifest of jobs; each job's input holds the lines
@@ -868,18 +949,16 @@ func TestReplayChild(t *testing.T) {
 			units = append(units, unit{j, l})
 		}
 	}
-	curPath := strings.TrimSuffix(os.Getenv("VERIF_CHILD_STATE"), "state.json") + "current.json"
-	childRun(t, len(units), func(i int) (any, []abs.Mismatch, bool) {
-		u := units[i]
-		jb := jobs[u.j]
-		// the behaviour is written before it runs, so that the parent can name it if the process dies
-		cur, _ := json.Marshal(map[string]any{"job": jb.Name, "steps": tries[u.j].steps[u.leaf]})
-		_ = os.WriteFile(curPath, cur, 0o644)
-		if jb.Kind == "manager" {
-			mis, nt := replayManager(t, tries[u.j], u.leaf, jb)
-			return nil, mis, nt
-		}
-		mis, nt := replayOne(t, tries[u.j], u.leaf, replayCfg{name: jb.Name, mode: "any", nc: jb.NC, nl: jb.NL, wrun: jb.WRun, wterm: jb.WTerm})
-		return nil, mis, nt
-	})
+	childRun(t, len(units),
+		func(i int) any {
+			return map[string]any{"job": jobs[units[i].j].Name, "steps": tries[units[i].j].steps[units[i].leaf]}
+		},
+		func(i int) ([]abs.Mismatch, bool) {
+			u := units[i]
+			jb := jobs[u.j]
+			if jb.Kind == "manager" {
+				return replayManager(t, tries[u.j], u.leaf, jb)
+			}
+			return replayOne(t, tries[u.j], u.leaf, replayCfg{name: jb.Name, mode: "any", nc: jb.NC, nl: jb.NL, wrun: jb.WRun, wterm: jb.WTerm})
+		})
 }
